@@ -740,14 +740,14 @@ def gen_all(ctx):
     for i in idxs:
         ints = INTS + BIG_INTS if rng.random() < 0.1 else INTS
         fam["meta"].append({"family": "meta", "meta": meta_from_index(rng, i, ints)})
-    for _ in range(ctx.n(150, 2500)):
+    for _ in range(ctx.n(150, 1500)):
         fam["meta_dict"].append({"family": "meta_dict", "dict": gen_meta_dict(rng)})
     for n in HASH_NAMES:
         for v in HASH_VALUES:
             fam["hash"].append({"family": "hash", "hi": {"name": n, "value": v}})
     for _ in range(ctx.n(40, 400)):
         fam["hash_dict"].append({"family": "hash_dict", "dict": gen_hash_dict(rng)})
-    for _ in range(ctx.n(260, 5000)):
+    for _ in range(ctx.n(260, 3000)):
         k = gen_key(rng)
         fam["entry"].append({"family": "entry", "entry": gen_entry(rng, k, INTS + BIG_INTS)})
     # the documented corner: a present but all-default meta
@@ -755,18 +755,18 @@ def gen_all(ctx):
         for loaded in (None, False):
             m = meta_from_index(rng, 0)
             fam["entry"].append({"family": "entry", "entry": {"key": ["a"], "meta": m, "hi": hi, "loaded": loaded}})
-    for _ in range(ctx.n(160, 3000)):
+    for _ in range(ctx.n(160, 2000)):
         fam["entry_dict"].append({"family": "entry_dict", "dict": gen_entry_dict(rng)})
     for _ in range(ctx.n(60, 600)):
         bad = rng.random() < 0.5
         fam["key"].append({"family": "key", "key": gen_key(rng, 0 if bad else 1, 4, PARTS_OK + (PARTS_BAD if bad else []))})
     for form in ("json", "db"):
-        for _ in range(ctx.n(45, 700)):
+        for _ in range(ctx.n(45, 400)):
             fam[form].append({"family": form, "form": form, "entries": gen_index(rng, ints=INTS + BIG_INTS)})
-        for _ in range(ctx.n(15, 250)):
+        for _ in range(ctx.n(15, 150)):
             fam[form].append({"family": form, "form": form, "malformed": True,
                               "entries": gen_index(rng, ints=INTS + BIG_INTS, bad=True)})
-    for _ in range(ctx.n(45, 700)):
+    for _ in range(ctx.n(45, 400)):
         ents = gen_index(rng, root=True)
         ops = [["set", k, e] for k, e in ents]
         if rng.random() >= 0.45:
@@ -783,7 +783,7 @@ def gen_all(ctx):
                 ops[at:at] = [["commit"], ["reopen"]]
         ops.append(["commit"])
         fam["sqlite"].append({"family": "sqlite", "ops": ops})
-    for _ in range(ctx.n(60, 900)):
+    for _ in range(ctx.n(60, 500)):
         hn = rng.choice(["md5", "md5-dos2unix"])
         ents = []
         seen = set()
@@ -799,7 +799,7 @@ def gen_all(ctx):
                 m["md5"] = v  # a tree as from_list itself builds it
             ents.append([k, m, {"name": hn, "value": v}])
         fam["listing"].append({"family": "listing", "hash_name": hn, "entries": ents})
-    for _ in range(ctx.n(30, 450)):
+    for _ in range(ctx.n(30, 250)):
         hn = rng.choice(["md5", "md5-dos2unix", None, "", "sha256", "etag", "checksum"])
         ents = []
         for _ in range(rng.randint(1, 4)):
